@@ -115,9 +115,15 @@ def replay_graph(ctx, consts, rep, max_walks=None, check=True, label="v12_graph"
     clean = 0
     met_counts = {}
     selftest = None
+    choice_stops = 0
     for n, w in enumerate(walks):
         states = [nodes[i] for i in w]
         div, met = rv.replay(consts, states)
+        if div and div.get("choice"):          # the code picked another of the least busy connections: this behaviour ends here
+            choice_stops += 1
+            covered.update(zip(w[:div["step"]], w[1:div["step"]]))
+            _report_walk(rep, consts, _acts(states), None, met)
+            continue
         upto = div["step"] if div else len(w) - 1
         covered.update(zip(w[:upto + 1], w[1:upto + 1]))
         acts = _acts(states)
@@ -145,7 +151,8 @@ def replay_graph(ctx, consts, rep, max_walks=None, check=True, label="v12_graph"
     ctx.count("v12_behaviours_replayed_without_divergence", clean)
     ctx.note(label, {"constants": name(consts), "edges": len(all_edges), "edges_replayed": len(covered),
                            "cover_walks_needed": total, "cover_walks_replayed": len(walks),
-                           "exhaustive": len(covered) == len(all_edges), "flipped_expectation_noticed": bool(selftest)})
+                           "exhaustive": len(covered) == len(all_edges), "flipped_expectation_noticed": bool(selftest),
+                 "walks_ended_where_the_code_picked_another_least_busy_connection": choice_stops})
     if met_counts:
         ctx.note(label + "_known_leak_steps_met_and_repaired", met_counts)
     return len(walks)
